@@ -55,6 +55,14 @@ def fill(claim, na):
           "stated error term and divisor; the three Strategy tables agree and are the stated ones.",
           "Real-number reading; numpy reductions per kverif.npmodel; argmin returns an index of the minimum.",
           "DESIGN.md 3/C19")
-    for pid in ["C01", "C02", "C04", "C05", "C06", "C07", "C08", "C09", "C10", "C12", "C14", "C15",
+    claim("C15", "proof", "def-use closure of cached values over the loop transfer function + normal-form equality of partial/finalise formulas + E3 purity summaries",
+          "For all curves, breakpoint sets and query histories sharing a cache: every cached value is a function of its key, "
+          "`points` and the metric only, stored only when absent and read under the same key, by pure callees (so a shared cache "
+          "is transparent); <=2-point segments store the literal 0; the divisor is len(points)+#segments-1; the result is clipped "
+          "at 0; for each metric finalise(sum partial) is the metric's formula over the concatenated segments with endpoint-line "
+          "predictions; global RMSE and MIP/MAD have their stated forms.",
+          "Real-number reading; one cache serves one metric and one curve; breakpoints ascending valid indices.",
+          "DESIGN.md 3/C15")
+    for pid in ["C01", "C02", "C04", "C05", "C06", "C07", "C08", "C09", "C10", "C12", "C14",
                 "C18"]:
         na(pid, PENDING)
